@@ -180,6 +180,10 @@ class System:
             ops.append(("callk",))
             for i in self.slots:
                 ops.append(("callk-act", i) if i not in act else ("callk-deact", i))
+            for i in self.slots:
+                for j in self.slots:
+                    if i in act and j not in act:
+                        ops.append(("callk-swap", i, j))  # the call deactivates i, then activates j
         if self.wname == "W3":
             # inside a copy of the current context (what a worker thread started with copy_context().run
             # sees): one more overlay on h is entered, h is called, the overlay is left
@@ -194,6 +198,9 @@ class System:
                         if i in act:
                             # the same after the body has entered and left a with-block of its own
                             ops.append(("gnext-deact2", i))
+                            for j in self.slots:
+                                if SLOTS[j][2] == "global" and j not in act:
+                                    ops.append(("gnext-swap", i, j))  # the body deactivates i, then activates j
         return ops
 
     def step_model(self, model, op):
@@ -208,7 +215,7 @@ class System:
             return (act, wstack[:-1], calls, gen), "ok"
         if op[0] == "act_bad":
             return model, "refused"
-        if op[0] in ("callk", "callk-act", "callk-deact"):
+        if op[0] in ("callk", "callk-act", "callk-deact", "callk-swap"):
             x = calls + 1
             exp = {s: expected_events(s, "k", x, False) for s in act}
             exp = tuple(sorted((s, tuple(map(_canon, e))) for s, e in exp.items() if e))
@@ -216,6 +223,8 @@ class System:
                 act = act + (op[1],)
             elif op[0] == "callk-deact":
                 act = tuple(i for i in act if i != op[1])
+            elif op[0] == "callk-swap":
+                act = tuple(i for i in act if i != op[1]) + (op[2],)
             return (act, wstack, x, gen), ("result", (x + 1) * 2, exp)
         if op[0] == "ctxrun":
             x = calls + 1
@@ -227,8 +236,10 @@ class System:
             if op[1] == "call":
                 return (act, wstack, calls + 1, gen), ("result", (calls + 2) * 2, ())
             return model, "ok"
-        if op[0] in ("gnext-act", "gnext-deact", "gnext-deact2"):
+        if op[0] in ("gnext-act", "gnext-deact", "gnext-deact2", "gnext-swap"):
             act = act + (op[1],) if op[0] == "gnext-act" else tuple(i for i in act if i != op[1])
+            if op[0] == "gnext-swap":
+                act = act + (op[2],)
             return (act, wstack, calls, gen + 1), "ok"
         if op[0] == "gen":
             # what the generator's own body delivers, and to whom, is C09's subject: not asserted here
@@ -314,7 +325,7 @@ class System:
                 w.depth[op[1]] = w.depth.get(op[1], 0) + 1
                 p.__enter__()
                 return "ok"
-            if op[0] in ("callk", "callk-act", "callk-deact"):
+            if op[0] in ("callk", "callk-act", "callk-deact", "callk-swap"):
                 for s in w.streams.values():
                     del s[:]
                 w.calls += 1
@@ -326,6 +337,14 @@ class System:
                         w.depth[slot] = 1
                         p.__enter__()
                     hook[0] = inside
+                elif op[0] == "callk-swap":
+                    def swap(old=op[1], new=op[2]):
+                        w.probes.pop(old).__exit__(None, None, None)
+                        p = self._make(w, new)
+                        w.probes[new] = p
+                        w.depth[new] = 1
+                        p.__enter__()
+                    hook[0] = swap
                 elif op[0] == "callk-deact":
                     hook[0] = lambda slot=op[1]: w.probes.pop(slot).__exit__(None, None, None)
                 try:
@@ -365,7 +384,7 @@ class System:
                 except KeyError:
                     pass
                 return "ok"
-            if op[0] in ("gnext-act", "gnext-deact", "gnext-deact2"):
+            if op[0] in ("gnext-act", "gnext-deact", "gnext-deact2", "gnext-swap"):
                 for s in w.streams.values():
                     del s[:]
                 hook = w.ns["HOOK"]
@@ -376,6 +395,14 @@ class System:
                         w.depth[slot] = 1
                         p.__enter__()
                     hook[0] = inside
+                elif op[0] == "gnext-swap":
+                    def swap2(old=op[1], new=op[2]):
+                        w.probes.pop(old).__exit__(None, None, None)
+                        p = self._make(w, new)
+                        w.probes[new] = p
+                        w.depth[new] = 1
+                        p.__enter__()
+                    hook[0] = swap2
                 elif op[0] == "gnext-deact2":
                     def inside2(slot=op[1]):
                         with self._make(w, 8):
@@ -503,6 +530,19 @@ class System:
                         probs.append(f"{name} still counts as a tooled function (ptera.utils.is_tooled) although no probe is active on it")
                 except ImportError:
                     pass
+        # every installed handler belongs to something that is active
+        pairs = I.current_pairs()
+        if pairs is not None and pairs is not I.UNKNOWN:
+            mine = set()
+            opaque = False
+            for s_, p_ in w.probes.items():
+                ol = getattr(p_, "_ol", p_)
+                if not hasattr(ol, "handlers"):
+                    opaque = True  # (a context manager made by Overlay.tapping: its handlers cannot be listed)
+                mine.update(id(h) for h in getattr(ol, "handlers", ()))
+            stray = [acc for _, acc in pairs if id(acc) not in mine]
+            if stray and not opaque:
+                probs.append(f"{len(stray)} handler(s) of probes / overlays that are not active any more are installed")
         if 9 not in active and w.h.__code__ is not w.orig["h"]:
             probs.append("the tooled function h does not run its tooled code although no probe is active on it")
         if not active:
